@@ -231,8 +231,12 @@ def emptyEng : Eng := { streams := [], router := [], hist := fun _ => [] }
 /-- `Engine::load` on a fresh engine: stream declarations in program order -/
 def load (P : List SDef) : Eng := P.foldl register emptyEng
 
-/-- `reload`'s change test (after the repair): the declarations are compared structurally -/
-def changed (old new : SDef) : Bool := old.defId != new.defId
+def sameSet (a b : List Ty) : Bool := a.all b.contains && b.all a.contains
+
+/-- `reload`'s change test (after the repair): the declarations are compared structurally, and so are
+the event types the stream is registered for (a declaration can resolve differently when the streams it
+names changed) -/
+def changed (old new : SDef) : Bool := old.defId != new.defId || !sameSet old.subs new.subs
 
 /-- pre-repair change test: source kind/name and `operations.len()` only -/
 def legacyChanged (old new : SDef) : Bool := old.prim != new.prim || old.isJoin != new.isJoin || old.nops != new.nops
